@@ -13,5 +13,5 @@ from checks import gov_common
 
 
 def run(ctx):
-    gov_common.run_streams(ctx, "C35", ["gov-registry"],
+    gov_common.run_streams(ctx, "C35", ["gov-registry", "gov-approvals"],
                            "Poly.Props.C35.registry_invariants / update_needs_owner_request / removal_needs_quit_request")
